@@ -52,7 +52,7 @@ def generate(rng, tier):
         if i % 10 == 0:
             x = sorted(round(0.01 * rng.randint(1, 3000), 2) for _ in range(m))
         w = i % 8
-        cases.append({"x": x, "y": y, "writer": w, "explicit": bool((i // 8) % 2), "stem": rng.choice(["out", "merged", "a_b.c", "s1"]),
+        cases.append({"x": x, "y": y, "writer": w, "explicit": bool((i // 8) % 2), "stem": rng.choice(["out", "merged", "a_b.c", "s1", "sub/run7"]),
                       "fn": i % 3, "desc": {"writer": WRITERS[w][0], "explicit_name": bool((i // 8) % 2), "n": m, "grid_x": i % 10 == 0}})
     # re-ingestion of a written merged S(Q)
     for i in range(4 if tier == "quick" else 30):
@@ -91,9 +91,11 @@ def run_impl(pystog, case):
         (st.q_master if dom == "q" else st.r_master)[title] = np.array(case["x"], float)
         (st.sq_master if dom == "q" else st.gr_master)[title] = np.array(case["y"], float)
         fname = "explicit_%d.dat" % case["writer"] if case["explicit"] else None
+        if os.path.dirname(case["stem"]):       # a stem that names a directory: the stem-based files go there, "ft.dat" stays where it is documented
+            os.makedirs(os.path.dirname(case["stem"]), exist_ok=True)
         getattr(st, name)(fname) if fname else getattr(st, name)()
         expect = fname or default.format(stem=case["stem"])
-        files = sorted(os.listdir("."))
+        files = sorted(os.path.relpath(os.path.join(dp, f), ".") for dp, _, fs in os.walk(".") for f in fs)
         text = open(expect, "rb").read() if os.path.exists(expect) else b""
         rx, ry = np.loadtxt(expect, skiprows=2, comments="#", unpack=True, ndmin=2) if text else (np.array([]), np.array([]))
         return {"x": case["x"], "y": case["y"], "bytes": list(text), "files": files, "expect": expect, "rx": np.asarray(rx, float).tolist(), "ry": np.asarray(ry, float).tolist()}
